@@ -26,6 +26,27 @@
     `a ws b` with a filter rejecting `ws`, `with_filter; next; start_sublex;
     set_filter(None); next` delivers `b`, its projection delivers `ws`
     (`start_sublex` on a lexer without lookahead eagerly skips filtered tokens).
+  * `C05_sublex`: the statement holds on the complement of the finding.  Walk along
+    the run of the history, outside clones: a sub-lex mark sets a flag "pending"; an
+    advance that consumed a token — `next` / `next_if` that returned a token,
+    `advance_to` that returned `true` — clears it; a filter change (`set_filter` /
+    `with_filter`) is allowed only while the flag is clear (`LexOpsProof.sublexOK`,
+    a function of the calls and their answers).  Every metrics-free history whose
+    run passes this check delivers exactly what its projection delivers: sub-lex
+    marks, lookahead and cloning are unobservable.  `C05_sublex_scan_state_sequential`
+    is the scanner-state clause for these histories.
+  * `C05_sublex_syntactic`: the same under a condition on the calls alone: outside
+    clones no filter change after the first sub-lex mark (`noFilterAfterSublex`);
+    `C05_partial_is_an_instance`: histories without sub-lex marks satisfy it.
+  * `C05_F19_signature_too_narrow`: the signature of F19 as the test oracle computes
+    it (`Fam.Lex.sublexThenFilter`; here `LexOpsProof.oracleSig`, on the model's own
+    answers) also lets `advance_up_to` that answered `true` clear "pending"; but that
+    call stops *before* the token it found and may consume nothing.  `with_filter;
+    next; start_sublex; advance_up_to(b); set_filter(None); next` on `a ws b` is not
+    flagged by that signature and still delivers `b` where its projection delivers
+    `ws`.  So the exact complement of the recorded signature is not enough; the
+    corrected one (an answer `true` of `advance_up_to` does not clear the flag) is
+    what `C05_sublex` uses.
   * `C05_needs_final_refusal`: without `ScanFinal` the partial statement is false
     too, with no sub-lex mark: a scanner that declines once and then, re-asked at
     the same position, produces a filtered token (`next` keeps the scanner state of
@@ -42,6 +63,7 @@
 -/
 import TephraModel.Fam.Lex
 import TephraProofs.LexOpsProof
+import TephraProofs.LexOpsSublex
 
 namespace Tephra.Props
 open Tephra
@@ -163,5 +185,85 @@ example : ScanOK ET mT 3 ∧ ScanFinal ET mT ∧ LexOps.metricsFree opsN = true 
     LexOps.delivered opsN (LexOps.exec ET [Lexer.new () mT 3] opsN) =
       [(.tok (some 1), some ⟨⟨0, 0, 0⟩, ⟨1, 0, 1⟩⟩), (.tok (some 2), some ⟨⟨2, 0, 2⟩, ⟨3, 0, 3⟩⟩)] :=
   ⟨scanT_ok, scanT_final, rfl, rfl, by decide, N_full⟩
+
+/-! ### sub-lex marks -/
+
+/-- Sub-lex marks, lookahead and cloning are unobservable in every metrics-free
+history in which, outside clones, no filter change follows a sub-lex mark before an
+advance has consumed a token (`sublexOK`, evaluated on the history's own run). -/
+theorem C05_sublex {σ τ : Type} (E : LexEnv σ τ) (m : Metrics) (len : Nat) (s0 : σ)
+    (ok : ScanOK E m len) (fin : ScanFinal E m)
+    (ops : List (LexOps.Op τ)) (hm : LexOps.metricsFree ops = true)
+    (hs : LexOpsProof.sublexOK ops (LexOps.exec E [Lexer.new s0 m len] ops) = true) :
+    LexOps.delivered ops (LexOps.exec E [Lexer.new s0 m len] ops)
+      = LexOps.delivered (LexOps.project ops) (LexOps.exec E [Lexer.new s0 m len] (LexOps.project ops)) :=
+  LexOpsProof.sublex_ ok fin s0 ops hm hs
+
+/-- The scanner-state clause for these histories: every delivered token is a token
+of the raw stream, with exactly that raw token's span. -/
+theorem C05_sublex_scan_state_sequential {σ τ : Type} (E : LexEnv σ τ) (m : Metrics) (len : Nat) (s0 : σ)
+    (ok : ScanOK E m len) (fin : ScanFinal E m)
+    (ops : List (LexOps.Op τ)) (hm : LexOps.metricsFree ops = true)
+    (hs : LexOpsProof.sublexOK ops (LexOps.exec E [Lexer.new s0 m len] ops) = true)
+    (t : τ) (sp : Span)
+    (h : (LexOps.Out.tok (some t), some sp) ∈ LexOps.delivered ops (LexOps.exec E [Lexer.new s0 m len] ops)) :
+    ∃ r ∈ Spec.rawFrom E.scan m (len + 1) s0 Pos.zero, r.tok = t ∧ sp = ⟨r.start, r.stop⟩ :=
+  LexOpsProof.sublex_sequential ok fin s0 ops hm hs _ h t sp rfl
+
+/-- The same under a condition on the calls alone: outside clones, no filter change
+after the first sub-lex mark. -/
+theorem C05_sublex_syntactic {σ τ : Type} (E : LexEnv σ τ) (m : Metrics) (len : Nat) (s0 : σ)
+    (ok : ScanOK E m len) (fin : ScanFinal E m)
+    (ops : List (LexOps.Op τ)) (hm : LexOps.metricsFree ops = true)
+    (hs : LexOpsProof.noFilterAfterSublex ops = true) :
+    LexOps.delivered ops (LexOps.exec E [Lexer.new s0 m len] ops)
+      = LexOps.delivered (LexOps.project ops) (LexOps.exec E [Lexer.new s0 m len] (LexOps.project ops)) :=
+  LexOpsProof.sublex_ ok fin s0 ops hm (LexOpsProof.sublexOK_of_noFilterAfterSublex ops _ hs)
+
+/-- `C05_partial` is the special case without sub-lex marks. -/
+theorem C05_partial_is_an_instance {σ τ : Type} (ops : List (LexOps.Op τ)) (hs : LexOps.sublexFree ops = true)
+    (obs : List (LexOps.Out τ × Lexer σ τ)) :
+    LexOpsProof.noFilterAfterSublex ops = true ∧ LexOpsProof.sublexOK ops obs = true :=
+  ⟨LexOpsProof.noFilterAfterSublex_of_sublexFree ops hs,
+   LexOpsProof.sublexOK_of_noFilterAfterSublex ops obs (LexOpsProof.noFilterAfterSublex_of_sublexFree ops hs)⟩
+
+open LexOpsProof.Witness in
+/-- The signature of F19 as the test oracle computes it is too narrow: its complement
+does not imply the statement (`advance_up_to` answering `true` consumes nothing). -/
+theorem C05_F19_signature_too_narrow :
+    ¬ (∀ {σ τ : Type} (E : LexEnv σ τ) (m : Metrics) (len : Nat) (s0 : σ), ScanOK E m len → ScanFinal E m →
+      ∀ ops : List (LexOps.Op τ), LexOps.metricsFree ops = true →
+        LexOpsProof.oracleSig ops (LexOps.exec E [Lexer.new s0 m len] ops) = false →
+        LexOps.delivered ops (LexOps.exec E [Lexer.new s0 m len] ops)
+          = LexOps.delivered (LexOps.project ops)
+              (LexOps.exec E [Lexer.new s0 m len] (LexOps.project ops))) := by
+  intro h
+  have := congrArg (List.map (·.1)) (h ET mT 3 () scanT_ok scanT_final opsU rfl U_sig.1)
+  rw [U_full, U_projected] at this
+  simp at this
+
+open LexOpsProof.Witness in
+/-- Non-vacuity of `C05_sublex` / `C05_sublex_syntactic`: `with_filter; next; peek;
+start_sublex; next` on `a ws b` satisfies both conditions, contains a sub-lex mark
+outside clones (so `C05_partial` does not apply), has a shorter projection and
+delivers `a` and `b`. -/
+example : ScanOK ET mT 3 ∧ ScanFinal ET mT ∧ LexOps.metricsFree opsS = true ∧
+    LexOps.sublexFree opsS = false ∧ LexOpsProof.noFilterAfterSublex opsS = true ∧
+    LexOpsProof.sublexOK opsS (LexOps.exec ET [Lexer.new () mT 3] opsS) = true ∧
+    (LexOps.project opsS).length < opsS.length ∧
+    LexOps.delivered opsS (LexOps.exec ET [Lexer.new () mT 3] opsS) =
+      [(.tok (some 1), some ⟨⟨0, 0, 0⟩, ⟨1, 0, 1⟩⟩), (.tok (some 2), some ⟨⟨2, 0, 2⟩, ⟨3, 0, 3⟩⟩)] :=
+  ⟨scanT_ok, scanT_final, rfl, rfl, rfl, S_ok, by decide, S_full⟩
+
+open LexOpsProof.Witness in
+/-- Non-vacuity of the semantic condition beyond the syntactic one: `with_filter;
+start_sublex; next; set_filter(None); next; next` changes the filter after the mark,
+once a token has been consumed; the change takes effect (`ws` is delivered). -/
+example : LexOps.metricsFree opsS2 = true ∧
+    LexOpsProof.sublexOK opsS2 (LexOps.exec ET [Lexer.new () mT 3] opsS2) = true ∧
+    LexOpsProof.noFilterAfterSublex opsS2 = false ∧
+    (LexOps.delivered opsS2 (LexOps.exec ET [Lexer.new () mT 3] opsS2)).map (·.1) =
+      [.tok (some 1), .tok (some 0), .tok (some 2)] :=
+  ⟨rfl, S2_ok.1, S2_ok.2, S2_full⟩
 
 end Tephra.Props
